@@ -339,7 +339,7 @@ impl Sub for Sequence {
 }
 
 const META: Meta = Meta {
-    rule: "complete enumeration of both 1024-entry twiddle tables against psi^(+-bitrev10(i)) with psi := table[512] (checked to satisfy psi^1024 = -1), of the eleven stored n^-1 constants, and of all 2047 basis vectors X^i for n = 1..1024 (ntt(X^i)[k] = r_k^i with r_k = ntt(X)[k], r_k^n = -1, r_k pairwise distinct; round trip); proptest operand pairs for n = 1..1024 (uniform, sparse, monomial, constant q-1, edge residues) compared with the schoolbook negacyclic product in i64, plus split/merge identities; structured transform-domain vectors (aligned blocks and half-waves of 0, q-1 and other extreme residues, two-valued patterns) through the inverse transform, checked by ntt(intt(F)) = F and an independent interpolation; the same low-degree operands zero-padded to 2-5 different lengths in sequence on one thread. Non-trivial = n >= 2 and both operands non-zero (hash-distinct); enumerated items are distinct by construction.",
+    rule: "complete enumeration of both 1024-entry twiddle tables against psi^(+-bitrev10(i)) with psi := table[512] (checked to satisfy psi^1024 = -1), of the eleven stored n^-1 constants, and of all 2047 basis vectors X^i for n = 1..1024 (ntt(X^i)[k] = r_k^i with r_k = ntt(X)[k], r_k^n = -1, r_k pairwise distinct; round trip); proptest operand pairs for n = 1..1024 (uniform, sparse, two to four terms at symmetry-related positions 0, n/4, n/2, 3n/4, n-1, monomial, constant q-1, edge residues) compared with the schoolbook negacyclic product in i64, plus split/merge identities; structured transform-domain vectors (aligned blocks and half-waves of 0, q-1 and other extreme residues, two-valued patterns) through the inverse transform, checked by ntt(intt(F)) = F and an independent interpolation; the same low-degree operands zero-padded to 2-5 different lengths in sequence on one thread. Non-trivial = n >= 2 and both operands non-zero (hash-distinct); enumerated items are distinct by construction.",
     assumptions: &[
         "oracle: refimpl::zq schoolbook product and modular exponentiation",
         "the hook wrappers convert canonical residues without reducing them",
